@@ -6,6 +6,7 @@ import (
 	"reflect"
 	"sort"
 	"strings"
+	"time"
 
 	jwt "github.com/nats-io/jwt/v2"
 	"verifharness/schema"
@@ -291,6 +292,18 @@ func runC03(c *Ctx) {
 				pl := reservedPlants[(i/4)%len(reservedPlants)]
 				gc.Data[pl.key] = pl.val
 				reserved = pl.key
+			}
+			// very large claims (a megabyte and more of payload: a long name, tens of thousands of revocations): what Encode
+			// writes, the decoders read - there is no size at which that stops (these do not go to the Coq evaluation)
+			if i == perKind || i == perKind+1 {
+				cl.Claims().Name = strings.Repeat("n", (1<<20)*(1+2*(i-perKind))+17)
+				if ac, ok := cl.(*jwt.AccountClaims); ok && i == perKind+1 {
+					cl.Claims().Name = "many revocations"
+					for r := 0; r < 30000; r++ {
+						ac.RevokeAt(fmt.Sprintf("UREVOKED%dXXXXXXXXXXXXXXXXXXXXXXXXXXXXXXXXXXXXXXXXXXXX", r), time.Unix(int64(1000+r), 0))
+					}
+				}
+				c.count("very_large_claims")
 			}
 			tok, err := cl.Encode(s.kp)
 			c.sum.Evaluations++
